@@ -159,6 +159,9 @@ def kernels(opts):
         ks.append(mk_s2s("K%d" % len(ks), RS, E1, RD, E2))
     for (RS, E, RD, to_scaled) in (("i8", -7, "i32", False), ("i16", -15, "i8", False), ("i8", 7, "i8", True), ("i16", 15, "i32", True)):
         ks.append(mk_int("K%d" % len(ks), RS, E, RD, to_scaled))
+    # always run: reps with more digits than the floating type's significand (correct rounding matters there)
+    for (RS, E, F) in (("i64", 0, "f32"), ("u64", -1, "f32"), ("i64", -30, "f64"), ("u64", 5, "f64"), ("i32", 0, "f32"), ("u32", -8, "f32")):
+        ks.append(mk_s2f("K%d" % len(ks), RS, E, F))
     fl = ["f32", "f64"] + (["f80"] if tier != "quick" else ["f80"])
     for _ in range(n[2]):
         F = rng.choice(fl)
